@@ -1150,7 +1150,7 @@ func runC16(p *Program, r *Report) {
 			continue
 		}
 		for _, fa := range p.FieldAccesses(f) {
-			if fa.Write && fa.Fn == fn {
+			if fa.Write && p.FuncName(fa.Fn) == "Conn.writeFrame" {
 				if c, ok := fa.Store.Val.(*ssa.Const); ok && c.Value != nil && c.Value.ExactString() == "true" {
 					flag = f
 				}
@@ -1174,7 +1174,7 @@ func runC16(p *Program, r *Report) {
 			continue
 		}
 		c, isC := fa.Store.Val.(*ssa.Const)
-		if fa.Fn != fn || !isC || c.Value == nil || c.Value.ExactString() != "true" {
+		if p.FuncName(fa.Fn) != "Conn.writeFrame" || !isC || c.Value == nil || c.Value.ExactString() != "true" {
 			okState, detail = false, "stored in "+p.FuncName(fa.Fn)+" value "+fa.Store.Val.String()
 		}
 	}
